@@ -66,7 +66,7 @@ def statsLoop (pts : Array (V3 Float)) : Nat → Nat → Array (Facet Float) →
     if i = ts.size then (st, if twinB ts then "final-twin" else "final-not-twin") else
     let t := tAt ts i
     let st := if !t.valid || t.affDep then st else
-      match indexedSupportPointId negMaxF3 t.normal pts t.vis.toList with
+      match H3.indexedSupportPointId negMaxF3 t.normal pts t.vis.toList with
       | none => st
       | some point =>
         let s := silhouetteStep pts point i ts
